@@ -848,11 +848,12 @@ Lemma exec_op_pure i :
   wf i = true -> existsb mutating (r_log (exec_op i)) = false -> r_fs (exec_op i) = world i.
 Proof.
   unfold wf. rewrite andb_true_iff. intros (A & W) Pu.
-  destruct (i_op i) as [name|name|name|s ow|ex es|name] eqn:O.
+  destruct (i_op i) as [name|name|name| |s ow|ex es|name] eqn:O.
   1-3: assert (NO : name_op i name) by (unfold name_op; rewrite O; auto);
        destruct (valid_name name) eqn:V;
        [ destruct (name_op_step i name A NO V) as ((_ & _ & M) & _); exact (M Pu)
        | destruct (name_op_invalid i name NO V) as (_ & _ & F); exact F ].
+  - unfold exec_op. now rewrite O.
   - rewrite !andb_true_iff, negb_true_iff in W. destruct W as ((_ & _) & NS).
     apply String.eqb_neq in NS.
     pose proof (install_contained (world i) (i_root i) s ow A NS) as IC.
@@ -979,10 +980,11 @@ Qed.
 Lemma model_spec_ok i : wf i = true -> spec_ok i (model i) = true.
 Proof.
   unfold wf. rewrite andb_true_iff. intros (A & W). unfold spec_ok.
-  destruct (i_op i) as [name|name|name|s ow|ex es|name] eqn:O.
+  destruct (i_op i) as [name|name|name| |s ow|ex es|name] eqn:O.
   - apply name_ops_meet_oracle; auto.
   - apply name_ops_meet_oracle; auto.
   - apply name_ops_meet_oracle; auto 6.
+  - unfold model, exec_op. rewrite O. reflexivity.
   - rewrite !andb_true_iff, negb_true_iff in W. destruct W as (_ & NS).
     apply String.eqb_neq in NS. eapply install_meets_oracle; eauto.
   - unfold model, exec_op. rewrite O. cbn. unfold list_plugins.
